@@ -16,13 +16,21 @@ theorem police_eq_spec (m : Msg) (sup req : List Nat) :
       | .unknown420 u => some (unknownAttributesResp m u)
       | .bad400 => some (badRequestResp m)
       | .pass => none := by
-  sorry
+  exact checkAttributeTypes_eq m sup req
 
 /-- a 420 verdict always lists at least one type, and never more than fit one attribute -/
 theorem unknown_list_bounds (b : Bytes) (m : Msg) (sup req : List Nat) (u : List Nat)
     (hp : msgFromBytes b = .ok m) (h : Spec.police (m.iter.map (·.ty)) sup req = .unknown420 u) :
     u ≠ [] ∧ u.length < 16384 ∧ ∀ t ∈ u, t < 0x8000 := by
-  sorry
+  obtain ⟨hne, rfl⟩ := police_unknown _ _ _ _ h
+  refine ⟨hne, ?_, ?_⟩
+  · have h1 := iter_length_lt hp
+    have h2 := List.length_filter_le (fun t => decide (t < 0x8000 ∧ t ∉ sup)) (m.iter.map (·.ty))
+    rw [List.length_map] at h2
+    omega
+  · intro t ht
+    simp only [List.mem_filter, decide_eq_true_eq] at ht
+    exact ht.2.1
 
 /-- the 420 response: class error, the request's method and transaction id, ERROR-CODE 420,
     UNKNOWN-ATTRIBUTES listing exactly `u`; it parses back -/
@@ -49,13 +57,17 @@ theorem resp_attrs (m : Msg) (u : List Nat) :
     (unknownAttributesResp m u).attrs.map BAttr.ty =
       (if u.isEmpty then [0x8022, 0x0009] else [0x8022, 0x0009, 0x000A]) ∧
     (badRequestResp m).attrs.map BAttr.ty = [0x8022, 0x0009] := by
-  sorry
+  refine ⟨?_, ?_⟩
+  · cases u with
+    | nil => rw [unknownAttributesResp_nil]; rfl
+    | cons x xs => rw [unknownAttributesResp_cons m (x :: xs) (by simp)]; rfl
+  · rw [badRequestResp_eq]; rfl
 
 /-- comprehension-required is exactly "type value < 0x8000", for the model and for the source's own
     expression (translated on this run), for every type value -/
 theorem comprehension_iff (t : Nat) :
     (comprehensionRequired t = true ↔ t < 0x8000) ∧ (Gen.comprehensionRequired t = true ↔ t < 0x8000) := by
-  sorry
+  simp [comprehensionRequired, Gen.comprehensionRequired]
 
 example : Spec.police [0x0006, 0x8022, 0x0024] [0x0006] [] = .unknown420 [0x0024] := by decide
 example : Spec.police [0x0006] [0x0006] [0x0008] = .bad400 := by decide
